@@ -53,6 +53,8 @@ def execute(prop, scenario, params, streams=None):
         # the freshly built module must match its own model
         obs = observe.Obs(world, model)
         mt = oracles.align_model(world, model, obs, prop)
+        if not gen.module_shape_ok(model):
+            raise core.Rejected("module violates the generator's shape preconditions")
         for si in range(nsess):
             if si < len(scenario["sessions"]):
                 sdesc = scenario["sessions"][si]
@@ -64,7 +66,9 @@ def execute(prop, scenario, params, streams=None):
                 def gen_cb(m, hist=hist, si=si):
                     return gen.gen_session(hist, m, params, si)
 
-            sess = driver.run_session(world, model, sdesc, prop, si, gen_cb=gen_cb)
+            sess = driver.run_session(
+                world, model, sdesc, prop, si, gen_cb=gen_cb, check_shape=lambda m, sd: gen.shape_ok(m, sd, params) and gen.ops_allowed(m, sd)
+            )
             if sdesc is None:
                 scenario["sessions"].append(sess.desc)
             stats["sessions"] += 1
